@@ -7,7 +7,7 @@ From stdpp Require Import gmap list.
 From Coq Require Import NArith ZArith.
 From VFS Require Import Core.Types Core.Prog Core.Calls Spec.Tree Base.MemFS Base.Handles Base.Store Layer.VfsPath
   Proofs.MemProofs Proofs.MemCalls Proofs.MemPublic Proofs.ConcProofs Proofs.Composite Proofs.ErrPaths Proofs.Leaves
-  Proofs.WalkProofs Proofs.RemoveAll Proofs.CopyFile Proofs.OvlProofs Proofs.OvlAppend Proofs.CopyDir.
+  Proofs.WalkProofs Proofs.RemoveAll Proofs.CopyFile Proofs.OvlProofs Proofs.OvlAppend Proofs.SortNames Proofs.CopyDir.
 
 Notation mstate := (gmap (list (list N)) memfile).
 
@@ -89,36 +89,39 @@ Theorem C11_move_file_across_instances : forall lg ft (s0 s1 : mstate) (hs : lis
 Proof. exact move_file_across. Qed.
 
 (** copy_dir from a directory p of one MemoryFS (s1, behind v1) to a fresh path p' of another (s0, behind v0),
-    for a source subtree of ANY size and shape: it succeeds and returns the number of entries below p; the
-    destination directory exists and holds, for every entry y below p, an entry of the same type and the same
-    bytes at p' ++ (y relative to p) - and nothing else below p'; nothing outside p' changes in the
-    destination; the source filesystem is unchanged (the final store has the same s1).  [desc s1 p]: the
-    entries strictly below p.  Hypothesis on access times: reading a file stamps its access time, which for a
-    file whose access time was never set explicitly changes nothing ([touched f = f]); with explicitly set
-    access times the source differs afterwards in exactly those stamps (decided by the correspondence). *)
+    for a source subtree of ANY size and shape and any contents: it succeeds and returns the number of entries
+    below p; the destination directory exists and holds, for every entry y below p, an entry of the same type and
+    the same bytes at p' ++ (y relative to p) - and nothing else below p'; nothing outside p' changes in the
+    destination; the source filesystem keeps every entry, type and byte (abs: the tree without timestamps -
+    reading a file stamps its access time).  [desc s1 p]: the entries strictly below p. *)
 Theorem C11_copy_dir_across_instances : forall (lg : list (nat * fscall)) (ft : option (nat * nat)) (s0 s1 : mstate)
     (hs : list hstate) (p p' : path) (fuel : nat),
   wf s0 -> wf s1 -> is_dir s1 p ->
-  (forall y f, s1 !! y = Some f -> f_type f = File -> touched f = f) ->
   p' <> [] -> is_dir s0 (removelast p') -> s0 !! p' = None ->
   length (desc s1 p) < fuel ->
-  exists s0' hs',
+  exists s0' s1' hs',
     run bhandler (vp_copy_dir fuel v1 p v0 p') (mstore2 s0 s1 hs lg ft) =
-      (mstore2 s0' s1 hs' lg ft, Ok (N.of_nat (length (desc s1 p)))) /\
+      (mstore2 s0' s1' hs' lg ft, Ok (N.of_nat (length (desc s1 p)))) /\
+    abs s1' = abs s1 /\
     wf s0' /\ is_dir s0' p' /\
     (forall y, is_Some (s1 !! y) -> below p y -> absf <$> (s0' !! tr p p' y) = absf <$> (s1 !! y)) /\
     (forall q, q <> p' -> ~ below p' q -> s0' !! q = s0 !! q) /\
     (forall q, below p' q -> is_Some (s0' !! q) -> exists y, is_Some (s1 !! y) /\ below p y /\ q = tr p p' y).
 Proof. exact copy_dir_across. Qed.
 
-(** non-vacuity: a source built through the API (directory /d with a file and a sub-directory holding a file)
-    copied to /c of an empty filesystem: 3 entries, the bytes arrive *)
+(** the listing of a directory depends only on which entries exist (what lets the walk ignore the access-time
+    stamps of the files already copied) *)
+Theorem C11_listing_ignores_values : forall (s : mstate) (x : path) (f g : memfile) (p : path),
+  s !! x = Some f -> mem_children (<[x := g]> s) p = mem_children s p.
+Proof. exact mem_children_insert_same. Qed.
+
+(** non-vacuity: directory /d with a file and a sub-directory holding a file, copied to /c of an empty
+    filesystem: 3 entries, the bytes arrive *)
 Example C11_copy_dir_example :
-  let fl c := mkMemFile File c TAuto (Some TAuto) (Some TAuto) in
+  let fl c := mkMemFile File c TAuto (Some TAuto) (Some (TSet 5)) in
   let dr := mkMemFile Dir [] TAuto (Some TAuto) (Some TAuto) in
   let src : mstate := <[[[100%N]; [115%N]; [103%N]] := fl [7; 8]%N]> (<[[[100%N]; [115%N]] := dr]>
                       (<[[[100%N]; [102%N]] := fl [1; 2; 3]%N]> (<[[[100%N]] := dr]> mem_new))) in
-  (forall y f, src !! y = Some f -> f_type f = File -> touched f = f) /\
   let r := run bhandler (vp_copy_dir 20 v1 [[100%N]] v0 [[99%N]]) (mstore2 mem_new src [] [] None) in
   snd r = Ok 3%N /\
   match st_bases (fst r) !! 0%nat with
@@ -126,13 +129,7 @@ Example C11_copy_dir_example :
                      absf <$> (s !! [[99%N]; [102%N]]) = Some (NFile [1; 2; 3]%N)
   | _ => False
   end.
-Proof.
-  split.
-  - intros y f Hf Hty. cbn zeta in Hf.
-    repeat (apply lookup_insert_Some in Hf as [[_ <-]|[_ Hf]]; [try reflexivity; discriminate|]).
-    unfold mem_new in Hf. apply lookup_singleton_Some in Hf as [_ <-]. discriminate.
-  - vm_compute. repeat split; reflexivity.
-Qed.
+Proof. vm_compute. repeat split; reflexivity. Qed.
 
 Example C11_example :
   exists s', fst (run bhandler (vp_create_dir_all mv [[97%N]; [98%N]; [99%N]]) (mstore mem_new [] [] None)) = mstore s' [] [] None /\
@@ -151,3 +148,4 @@ Print Assumptions C11_copy_file_across_instances.
 Print Assumptions C11_move_file_across_instances.
 Print Assumptions C11_copy_dir_across_instances.
 Print Assumptions C11_copy_dir_example.
+Print Assumptions C11_listing_ignores_values.
